@@ -9,7 +9,6 @@ use serde_json::json;
 use std::path::Path;
 
 use crate::engine::*;
-use crate::ensure;
 
 const Q: i64 = 12289;
 
